@@ -16,6 +16,7 @@ import (
 	"github.com/arloliu/go-secs/v2/zverif/vsched"
 
 	"verif/e2"
+	"verif/e2s1"
 	"verif/e3"
 	"verif/peer"
 	"verif/sim"
@@ -45,6 +46,14 @@ type mon struct {
 	peerDropped atomic.Bool
 	mu          sync.Mutex // real mutex: only the notifier goroutine and Finish touch notes
 	notes       []note
+	conn        hsms.Connection // nil: the world's hsmsss connection
+}
+
+func (m *mon) state(e *e3.Env) hsms.ConnState {
+	if m.conn != nil {
+		return m.conn.State()
+	}
+	return e.W.C.State()
 }
 
 func (m *mon) handler(c hsms.Connection) hsms.StateChangeHandler {
@@ -57,7 +66,7 @@ func (m *mon) handler(c hsms.Connection) hsms.StateChangeHandler {
 
 // edge is evaluated at every scheduling point.
 func (m *mon) edge(e *e3.Env) {
-	cur := e.W.C.State()
+	cur := m.state(e)
 	if cur != m.prev {
 		if !legalEdge[[2]hsms.ConnState{m.prev, cur}] {
 			e.Violate("illegal-edge:"+m.prev.String()+"->"+cur.String(), "State() moved %v -> %v, which is not an edge of the SEMI E37 state diagram", m.prev, cur)
@@ -87,7 +96,7 @@ func (m *mon) final(e *e3.Env, where string) {
 	for _, n := range ns {
 		desc += fmt.Sprintf("%v->%v ", n.prev, n.next)
 	}
-	e.Note("%s notes=[%s] state=%v", where, desc, e.W.C.State())
+	e.Note("%s notes=[%s] state=%v", where, desc, m.state(e))
 	for i, n := range ns {
 		if n.prev == n.next {
 			e.Violate("notify-self-transition", "notification %d is a self-transition %v->%v (all: %s)", i, n.prev, n.next, desc)
@@ -103,10 +112,10 @@ func (m *mon) final(e *e3.Env, where string) {
 		}
 	}
 	if len(ns) > 0 {
-		if last := ns[len(ns)-1].next; last != e.W.C.State() {
-			e.Violate("notify-last-mismatch", "handlers drained: last notification's next=%v but State()=%v (all: %s)", last, e.W.C.State(), desc)
+		if last := ns[len(ns)-1].next; last != m.state(e) {
+			e.Violate("notify-last-mismatch", "handlers drained: last notification's next=%v but State()=%v (all: %s)", last, m.state(e), desc)
 		}
-	} else if st := e.W.C.State(); st != hsms.NotConnectedState {
+	} else if st := m.state(e); st != hsms.NotConnectedState {
 		e.Violate("notify-missing", "no notification was delivered but State()=%v", st)
 	}
 }
@@ -311,6 +320,42 @@ func scenarios() []e3.Scenario {
 				if err := e.W.SelectOnPeer(false); err != nil {
 					e.Violate("reopen-no-select", "after Close+Open a fresh select fails: %v", err)
 				}
+			},
+		})
+	}
+	// S5: SECS-I passive; the peer connects (SECS-I commits Connected and Selected back to
+	// back on TCP-up) while the application closes.
+	{
+		var m *mon
+		var n *e2s1.Node
+		out = append(out, e3.Scenario{
+			Name: "secs1-passive-connect-vs-close", Horizon: 30 * time.Second,
+			Setup: func(e *e3.Env) {
+				m = &mon{}
+				n = e2s1.New(e.W, e2s1.Opts{Active: false, Equip: true, Device: 1, Retry: 1, T1: 100 * time.Millisecond, T2: 300 * time.Millisecond,
+					Conn: []hsms.ConnOption{hsms.WithT5(time.Second), hsms.WithCloseTimeout(10 * time.Second), hsms.WithReconnectBackoff(100*time.Millisecond, 2)}})
+				m.conn = n.C
+				n.C.AddConnStateChangeHandler(m.handler(n.C))
+				if err := n.Open(); err != nil {
+					panic(err)
+				}
+				e.Thread("peer", func() {
+					if pc := e.W.Net.Connect(); pc != nil {
+						defer pc.Close()
+						var b [1]byte
+						_, _ = pc.Read(b[:]) // until the library closes the socket
+					}
+				})
+				e.Thread("app", func() {
+					_ = n.C.Close()
+					m.closedRet.Store(true)
+				})
+			},
+			Monitor: func(e *e3.Env) { m.edge(e) },
+			Finish: func(e *e3.Env) {
+				m.edge(e)
+				m.final(e, "end")
+				_ = n.C.Close()
 			},
 		})
 	}
